@@ -380,13 +380,19 @@ const RISKY: [&str; 9] =
 
 /// compile, format (two option sets), render errors, optionally run and display
 fn text_case(src: &str, run: bool) -> Value {
+    // large generated programs: compile, one format pass, run
+    let light = src.len() > 20_000;
     let mut notes = serde_json::Map::new();
     phase("compile");
     let mut svm = ScriptVm::with_limit(Some(Duration::from_millis(100)));
     let compiled = svm.compile(src, CompilerSettings::default());
     notes.insert("compile".into(), json!(compiled.is_ok()));
+    if let Ok(chunk) = &compiled {
+        notes.insert("bytes".into(), json!(chunk.bytes.len()));
+    }
     phase("parse");
-    if let Err(e) = koto_parser::Parser::parse(src) {
+    if light {
+    } else if let Err(e) = koto_parser::Parser::parse(src) {
         phase("parse-error-display");
         let _ = e.to_string();
         let _ = format!("{e:?}");
@@ -408,11 +414,12 @@ fn text_case(src: &str, run: bool) -> Value {
         line_length: 24,
         chain_break_threshold: 1,
     };
-    if let Err(e) = koto_format::format(src, narrow) {
+    if light {
+    } else if let Err(e) = koto_format::format(src, narrow) {
         phase("format-error-display");
         let _ = e.to_string();
     }
-    if let Ok(out) = &f1 {
+    if let (Ok(out), false) = (&f1, light) {
         // the formatter's own output goes through the same pipeline once more
         phase("format-again");
         if let Err(e) = koto_format::format(out, koto_format::FormatOptions::default()) {
